@@ -15,6 +15,7 @@ import (
 	"github.com/wrgl/wrgl/pkg/objects"
 	"github.com/wrgl/wrgl/pkg/pbar"
 	"github.com/wrgl/wrgl/pkg/sorter"
+	"github.com/wrgl/wrgl/pkg/verifhook"
 )
 
 type asyncBlock struct {
@@ -79,6 +80,7 @@ func (i *Inserter) insertBlock() {
 	)
 	defer i.wg.Done()
 	for blk := range i.blocks {
+		verifhook.Yield("inserter.block")
 		// write block and add block to table
 		sum, bb, err = objects.SaveBlock(i.db, bb, blk.Block)
 		if err != nil {
@@ -100,6 +102,7 @@ func (i *Inserter) insertBlock() {
 			return
 		}
 		i.logger.Info("index block", "blockSum", sum, "indexSum", blkIdxSum)
+		verifhook.Yield("inserter.accumulate")
 		i.mutex.Lock()
 		i.rowsCount += uint32(blk.RowsCount)
 		i.asyncBlocks = append(i.asyncBlocks, asyncBlock{
